@@ -4,6 +4,7 @@
 // engine is compiled with -fno-access-control.  Those four objects are therefore NOT linked.
 #pragma once
 #include "../common/verif.h"
+#include "../common/adapters.h"
 
 #include "processor.cpp"
 // keep order: processor.cpp first, otherwise `Teakra::RegisterState` inside processor.cpp would
@@ -36,6 +37,7 @@ struct BtdmpSnap {
     u16 clock_config, period, timer, enable;
     bool empty, full;
     std::deque<u16> queue;
+    std::shared_ptr<const T::Btdmp> object; // only where the port's state is not reachable by member name: a copy of the object for an exact restore
 };
 struct CoreSnap {
     bool ip[3], ipv, vctx, idle;
@@ -88,8 +90,8 @@ struct Machine {
     T::RegisterState& regs() {
         return impl->processor.impl->regs;
     }
-    T::Apbp::Impl& apbp(int i) {
-        return *(i == 0 ? impl->apbp_from_cpu : impl->apbp_from_dsp).impl;
+    T::Apbp& apbp(int i) {
+        return i == 0 ? impl->apbp_from_cpu : impl->apbp_from_dsp;
     }
     u16 DataWord(u32 a) const {
         return impl->shared_memory.raw[(0x20000 + a) * 2] | (impl->shared_memory.raw[(0x20000 + a) * 2 + 1] << 8);
@@ -103,49 +105,134 @@ struct Machine {
         impl->shared_memory.raw[a * 2 + 1] = (u8)(v >> 8);
     }
 
-    static ApbpSnap SaveApbp(T::Apbp::Impl& a) {
+    // mailbox state: by member name where the members are the pinned ones (no locks taken: the scheduler's state hash runs outside any
+    // scheduled thread), else through the public interface (every component has a getter)
+    template <class A>
+    static ApbpSnap SaveApbpT(const A& ap) {
+        using I = std::remove_reference_t<decltype(*ap.impl)>;
         ApbpSnap s{};
-        for (int i = 0; i < 3; ++i) {
-            s.ready[i] = a.data_channels[i].ready;
-            s.data[i] = a.data_channels[i].data;
-            s.disable[i] = a.data_channels[i].disable_interrupt;
-        }
-        s.semaphore = a.semaphore;
-        s.mask = a.semaphore_mask;
-        s.signal = a.semaphore_master_signal;
+        if constexpr (ApbpByName<I>()) {
+            const I& a = *ap.impl;
+            for (int i = 0; i < 3; ++i) {
+                s.ready[i] = a.data_channels[i].ready;
+                s.data[i] = a.data_channels[i].data;
+                s.disable[i] = a.data_channels[i].disable_interrupt;
+            }
+            s.semaphore = a.semaphore;
+            s.mask = a.semaphore_mask;
+            s.signal = a.semaphore_master_signal;
+        } else
+            s = SaveApbpPublic(ap);
         return s;
     }
-    static void LoadApbp(T::Apbp::Impl& a, const ApbpSnap& s) {
-        for (int i = 0; i < 3; ++i) {
-            a.data_channels[i].ready = s.ready[i];
-            a.data_channels[i].data = s.data[i];
-            a.data_channels[i].disable_interrupt = s.disable[i];
+    static ApbpSnap SaveApbp(const T::Apbp& a) {
+        return SaveApbpT(a);
+    }
+    static ApbpSnap SaveApbpPublic(const T::Apbp& a) {
+        ApbpSnap s{};
+        for (unsigned i = 0; i < 3; ++i) {
+            s.ready[i] = a.IsDataReady(i);
+            s.data[i] = a.PeekData(i);
+            s.disable[i] = a.GetDisableInterrupt(i);
         }
-        a.semaphore = s.semaphore;
-        a.semaphore_mask = s.mask;
-        a.semaphore_master_signal = s.signal;
+        s.semaphore = a.GetSemaphore();
+        s.mask = a.GetSemaphoreMask();
+        s.signal = a.IsSemaphoreSignaled();
+        return s;
+    }
+    template <class I>
+    static constexpr bool ApbpByName() {
+        if constexpr (verif_adapt::has_semaphore<I>(0) && verif_adapt::has_semaphore_mask<I>(0) && verif_adapt::has_semaphore_master_signal<I>(0) && verif_adapt::has_data_channels<I>(0)) {
+            using C = std::remove_reference_t<decltype(std::declval<I&>().data_channels[0])>;
+            return verif_adapt::has_ready<C>(0) && verif_adapt::has_data<C>(0) && verif_adapt::has_disable_interrupt<C>(0);
+        } else
+            return false;
+    }
+    template <class A>
+    static void LoadApbpT(A& ap, const ApbpSnap& s) {
+        using I = std::remove_reference_t<decltype(*ap.impl)>;
+        if constexpr (ApbpByName<I>()) {
+            I& a = *ap.impl;
+            for (int i = 0; i < 3; ++i) {
+                a.data_channels[i].ready = s.ready[i];
+                a.data_channels[i].data = s.data[i];
+                a.data_channels[i].disable_interrupt = s.disable[i];
+            }
+            a.semaphore = s.semaphore;
+            a.semaphore_mask = s.mask;
+            a.semaphore_master_signal = s.signal;
+        } else {
+            // public interface only: the state is re-established from Reset; handlers are silenced while doing so (callers restore the
+            // interrupt controller and the host-side counters after the mailboxes)
+            ap.Reset();
+            ap.MaskSemaphore(0xFFFF);
+            if (s.semaphore)
+                ap.SetSemaphore(s.semaphore);
+            ap.MaskSemaphore(s.mask);
+            for (unsigned i = 0; i < 3; ++i) {
+                ap.SetDisableInterrupt(i, 1);
+                if (s.ready[i])
+                    ap.SendData(i, s.data[i]);
+                else if (s.data[i]) { // an emptied mailbox keeps its last word
+                    ap.SendData(i, s.data[i]);
+                    (void)ap.RecvData(i);
+                }
+                ap.SetDisableInterrupt(i, s.disable[i]);
+            }
+        }
+    }
+    void LoadApbp(T::Apbp& ap, const ApbpSnap& s) {
+        const auto cb0 = host_data_cb[0], cb1 = host_data_cb[1], cb2 = host_data_cb[2];
+        const auto sem = host_sem_cb;
+        const size_t nlog = log.size();
+        LoadApbpT(ap, s);
+        host_data_cb[0] = cb0, host_data_cb[1] = cb1, host_data_cb[2] = cb2, host_sem_cb = sem;
+        log.resize(nlog);
+    }
+    template <class I>
+    static void ReadIcuWords(const I& icu, IcuSnap& s) {
+        if constexpr (verif_adapt::has_request<I>(0) && verif_adapt::has_enabled<I>(0) && verif_adapt::has_vectored_enabled<I>(0)) {
+            s.request = (u16)icu.request.to_ulong(); // no lock taken (see SaveApbpT)
+            for (int i = 0; i < 3; ++i)
+                s.enabled[i] = (u16)icu.enabled[i].to_ulong();
+            s.venabled = (u16)icu.vectored_enabled.to_ulong();
+        } else {
+            s.request = icu.GetRequest();
+            for (int i = 0; i < 3; ++i)
+                s.enabled[i] = icu.GetEnable(i);
+            s.venabled = icu.GetEnableVectored();
+        }
     }
     IcuSnap SaveIcu() {
         IcuSnap s;
         auto& icu = impl->icu;
-        s.request = (u16)icu.request.to_ulong();
-        for (int i = 0; i < 3; ++i)
-            s.enabled[i] = (u16)icu.enabled[i].to_ulong();
-        s.venabled = (u16)icu.vectored_enabled.to_ulong();
+        ReadIcuWords(icu, s);
         s.vlow = icu.vector_low;
         s.vhigh = icu.vector_high;
         s.vctx = icu.vector_context_switch;
         return s;
     }
-    void LoadIcu(const IcuSnap& s) {
-        auto& icu = impl->icu;
-        icu.request = T::ICU::IrqBits(s.request);
+    template <class I>
+    void LoadIcuT(I& icu, const IcuSnap& s) {
         for (int i = 0; i < 3; ++i)
-            icu.enabled[i] = T::ICU::IrqBits(s.enabled[i]);
-        icu.vectored_enabled = T::ICU::IrqBits(s.venabled);
+            icu.SetEnable(i, s.enabled[i]);
+        icu.SetEnableVectored(s.venabled);
         icu.vector_low = s.vlow;
         icu.vector_high = s.vhigh;
         icu.vector_context_switch = s.vctx;
+        if constexpr (verif_adapt::has_request<I>(0)) {
+            icu.request = s.request; // std::bitset<16> or a plain word
+        } else {
+            // public interface only: acknowledge everything, raise the wanted requests again; the signals this sends to the core are undone
+            const CoreSnap c = SaveCore();
+            icu.Acknowledge(0xFFFF);
+            if (s.request)
+                icu.Trigger(s.request);
+            LoadCore(c);
+        }
+    }
+    void LoadIcu(const IcuSnap& s) {
+        LoadIcuT(impl->icu, s);
     }
     static TimerSnap SaveTimer(const T::Timer& t) {
         return {t.update_mmio, t.pause, (u16)t.count_mode, t.scale, t.start_high, t.start_low,
@@ -163,28 +250,23 @@ struct Machine {
         t.counter_low = s.counter_low;
     }
     static BtdmpSnap SaveBtdmp(const T::Btdmp& b) {
+        const verif_adapt::BtdmpView v = verif_adapt::ReadBtdmp(b);
         BtdmpSnap s;
-        s.clock_config = b.transmit_clock_config;
-        s.period = b.transmit_period;
-        s.timer = b.transmit_timer;
-        s.enable = b.transmit_enable;
-        s.empty = b.transmit_empty;
-        s.full = b.transmit_full;
-        auto q = b.transmit_queue;
-        while (!q.empty()) {
-            s.queue.push_back(q.front());
-            q.pop();
-        }
+        s.clock_config = v.clock_config, s.period = v.period, s.timer = v.timer, s.enable = v.enable, s.empty = v.empty, s.full = v.full;
+        s.queue = v.queue;
+        if constexpr (!verif_adapt::BtdmpByName<T::Btdmp>())
+            s.object = std::make_shared<const T::Btdmp>(b);
         return s;
     }
     static void LoadBtdmp(T::Btdmp& b, const BtdmpSnap& s) {
-        b.transmit_clock_config = s.clock_config;
-        b.transmit_period = s.period;
-        b.transmit_timer = s.timer;
-        b.transmit_enable = s.enable;
-        b.transmit_empty = s.empty;
-        b.transmit_full = s.full;
-        b.transmit_queue = std::queue<u16>(s.queue);
+        if (s.object) {
+            b = *s.object;
+            return;
+        }
+        verif_adapt::BtdmpView v;
+        v.clock_config = s.clock_config, v.period = s.period, v.timer = s.timer, v.enable = s.enable, v.empty = s.empty, v.full = s.full;
+        v.queue = s.queue;
+        verif_adapt::WriteBtdmp(b, v);
     }
     CoreSnap SaveCore() {
         CoreSnap c;
@@ -224,11 +306,11 @@ struct Machine {
     }
     void Load(const Snap& s) {
         regs() = s.regs;
-        LoadCore(s.core);
         impl->miu = s.miu;
+        LoadApbp(apbp(0), s.apbp[0]); // mailboxes first, then the interrupt controller, then the core's latches: a restore through the
+        LoadApbp(apbp(1), s.apbp[1]); // public interface may signal downstream, the later restores overwrite that
         LoadIcu(s.icu);
-        LoadApbp(apbp(0), s.apbp[0]);
-        LoadApbp(apbp(1), s.apbp[1]);
+        LoadCore(s.core);
         for (int i = 0; i < 2; ++i) {
             LoadTimer(impl->timer[i], s.timer[i]);
             LoadBtdmp(impl->btdmp[i], s.btdmp[i]);
